@@ -14,6 +14,7 @@ import (
 	"testing"
 	"time"
 
+	"github.com/alicebob/miniredis/v2"
 	"github.com/oauth2-proxy/oauth2-proxy/v7/pkg/apis/options"
 	sessionsapi "github.com/oauth2-proxy/oauth2-proxy/v7/pkg/apis/sessions"
 )
@@ -301,6 +302,8 @@ func driveC12(t *testing.T, out *vEmitter) {
 
 	// ---- sequential behaviours: provider variants ----
 	vC12Sequential(t, out)
+	// ---- the real Redis client and lock, truly concurrent ----
+	vC12RealRedis(t, out)
 }
 
 func vCheckSchedule(out *vEmitter, o *vSchedOutcome, n int, label string, signOutTid int, e *vEnv) {
@@ -510,4 +513,80 @@ func vReseed(b *vMainBrowser, s *sessionsapi.SessionState) {
 		b.e.t.Fatalf("reseed: %v", err)
 	}
 	b.jar.SetCookies(b.origin, (&http.Response{Header: rw.Header()}).Cookies())
+}
+
+// vC12RealRedis: truly concurrent requests against miniredis with the repository's real Redis
+// client, session store and redislock-based Lock (no scheduler: the Go runtime interleaves).
+func vC12RealRedis(t *testing.T, out *vEmitter) {
+	mr, err := miniredis.Run()
+	if err != nil {
+		out.Stat("miniredis_unavailable", 1)
+		return
+	}
+	defer mr.Close()
+	e := vNewEnv(t, vEnvCfg{oidc: true, mod: func(o *options.Options) {
+		o.Session.Type = options.RedisSessionStoreType
+		o.Session.Redis.ConnectionURL = "redis://" + mr.Addr()
+		o.Cookie.Refresh = time.Hour
+		o.Providers[0].OIDCConfig.InsecureSkipNonce = true
+		o.InjectRequestHeaders = append(o.InjectRequestHeaders, options.Header{Name: "X-Forwarded-Access-Token",
+			Values: []options.HeaderValue{{ClaimSource: &options.ClaimSource{Claim: "access_token"}}}})
+	}})
+	{
+		b := e.newBrowser("https://app.example.com")
+		b.seedSession("user@example.com", time.Second, 30)
+		b.get("/warm")
+	}
+	rounds := vPick(6, 60)
+	for round := 0; round < rounds; round++ {
+		n := 2 + round%5
+		if vThorough() {
+			n = 2 + round%15
+		}
+		rot := &vRotIdP{}
+		h := rot.handler("user@example.com")
+		e.idp.onToken = func(f url.Values) (int, string, string, error) {
+			time.Sleep(30 * time.Millisecond) // well inside the lock's duration; lets the others queue up
+			return h(f)
+		}
+		b := e.newBrowser("https://app.example.com")
+		b.seedSession("user@example.com", 2*time.Hour, 30)
+		cookie := b.cookieHeader("/")
+		e.upstream.Take()
+		var wg sync.WaitGroup
+		status := make([]int, n)
+		for i := 0; i < n; i++ {
+			wg.Add(1)
+			go func(tid int) {
+				defer wg.Done()
+				req, err := vRawRequest(vBuildRaw("GET", fmt.Sprintf("/c%d", tid), "app.example.com", [][2]string{{"Cookie", cookie}, {"X-Verif-Tid", strconv.Itoa(tid)}}, ""))
+				if err != nil {
+					return
+				}
+				status[tid] = e.serveNoUpstreamReset(req).Status
+			}(i)
+		}
+		wg.Wait()
+		hits := e.upstream.Take()
+		served := map[int]string{}
+		for _, hh := range hits {
+			tid, _ := strconv.Atoi(hh.Header.Get("X-Verif-Tid"))
+			served[tid] = hh.Header.Get("X-Forwarded-Access-Token")
+		}
+		out.Obs("real-redis", true, vL("concurrent", vI(int64(n)), vI(int64(rot.succ)), vI(int64(rot.reuse)), vI(int64(len(served)))))
+		out.Stat("real_redis_rounds", 1)
+		if rot.succ != 1 || rot.reuse != 0 {
+			out.Violation("refresh/not-exactly-one-refresh", "concurrent requests sharing a stale session did not cause exactly one refresh at the identity provider",
+				map[string]interface{}{"requests": n, "successful": rot.succ, "with_consumed_token": rot.reuse, "store": "miniredis+redislock"})
+		}
+		for i := 0; i < n; i++ {
+			if tok, ok := served[i]; !ok {
+				out.Violation("refresh/request-not-served", "a request sharing the refreshed session was not served",
+					map[string]interface{}{"request": i, "status": status[i], "store": "miniredis+redislock"})
+			} else if tok != "at1" {
+				out.Violation("refresh/stale-tokens-upstream", "a request was forwarded upstream with tokens other than the refreshed ones",
+					map[string]interface{}{"request": i, "token": tok, "store": "miniredis+redislock"})
+			}
+		}
+	}
 }
